@@ -313,8 +313,58 @@ def run(ctx: Ctx) -> None:
         ctx.evaluated(f"helper:{name}")
         if not (np.array_equal(p, keep[0]) and np.array_equal(a, keep[1]) and np.array_equal(o, keep[2])):
             ctx.violation(f"helper:{name}:modifies-argument", f"{name} modified an array passed to it", {"helper": name})
+    constructor_inputs(ctx)
     ctx.sample({"entity": kinds[0], "maps": progs[0]["idx"], "images": progs[0]["images"][:2]})
     ctx.exhaustive = False
+
+
+def constructor_inputs(ctx: Ctx) -> None:
+    """Arrays handed to constructors are the caller's: transforming the entity built from them (translation first - the one
+    map the library applies in place) changes neither the array nor a second entity built from the same array."""
+    import classy_blocks as cb
+    import numpy as np
+
+    def pts(e):
+        if hasattr(e, "curve"):
+            return np.array(e.curve.discretize())
+        if hasattr(e, "discretize"):
+            return np.array(e.discretize())
+        if hasattr(e, "point_array"):
+            return np.array(e.point_array)
+        if hasattr(e, "point"):
+            return np.array(e.point.position)
+        if hasattr(e, "origin"):
+            return np.array(e.origin.position)
+        if hasattr(e, "axis"):
+            return np.array(e.axis.components if hasattr(e.axis, "components") else e.axis)
+        return np.array(e.position)
+
+    makers = {
+        "Spline": lambda a: cb.Spline(a), "PolyLine": lambda a: cb.PolyLine(a),
+        "DiscreteCurve": lambda a: cb.DiscreteCurve(a), "LinearInterpolatedCurve": lambda a: cb.LinearInterpolatedCurve(a),
+        "SplineInterpolatedCurve": lambda a: cb.SplineInterpolatedCurve(a), "Face": lambda a: cb.Face(a[:4]),
+        "Arc": lambda a: cb.Arc(a[0]), "Origin": lambda a: cb.Origin(a[0]), "Angle": lambda a: cb.Angle(0.5, a[0]),
+        "Loft": lambda a: cb.Loft(cb.Face(a[:4]), cb.Face(a[:4] + np.array([0.0, 0.0, 1.5]))),
+    }
+    for name, make in makers.items():
+        arr = np.array([[0.5, 0.25, 0.0], [2.0, 0.5, 0.25], [2.25, 1.75, 0.5], [0.25, 1.5, 0.75], [-0.5, 0.75, 1.0]], dtype=float)
+        keep = arr.copy()
+        try:
+            first, second = make(arr), make(arr)
+            before = pts(second).copy()
+            first.translate([0.3, -0.7, 1.1])
+            moved_second = not np.allclose(pts(second), before, atol=1e-12)
+            first.rotate(0.4, [0.2, 1.0, -0.5], [1.0, 2.0, 3.0])
+            first.scale(1.7, [0.5, 0.5, 0.5])
+            first.mirror([1.0, 0.3, 0.2], [0.1, 0.2, 0.3])
+        except Exception as err:  # pylint: disable=broad-except
+            ctx.violation(f"constructor-input:{name}:raises:{type(err).__name__}", f"{name} built from an array and transformed raised {err}", {"entity": name})
+            continue
+        ctx.evaluated(f"constructor-input:{name}")
+        if not np.array_equal(arr, keep):
+            ctx.violation(f"constructor-input:{name}:array-modified", f"transforming a {name} modified the array it was built from", {"entity": name})
+        elif moved_second:
+            ctx.violation(f"constructor-input:{name}:second-entity-moved", f"translating a {name} moved another {name} built from the same array", {"entity": name})
 
 
 def hemisphere_copy(ctx: Ctx) -> None:
